@@ -191,20 +191,12 @@ theorem first_apply_keeps_owned_of_compare_facts (P : Presence) (u : Updater) (s
     OwnedIn P tr (match (generalizing := false) obj with | some o => o.value | none => st.live) mf :=
   first_apply_ownedIn hP hc hconv hig hsorted hwf hlive hvalid hcfg hcongr hinv hfirst hap
 
-/-- the instance of interest: along every history of Updates every owned path designates a node of the
-live object (`Nodes.present`, the independent resolver), given the three Compare facts for visible nodes
-(`SMD.VisibleNode`: a node with no atomic or scalar-typed node strictly above it — prefix closed by
-`visibleNode_prefixClosed`) -/
-theorem updates_owned_nodes_of_compare_facts (u : Updater) (sc : Schema) (tr : TypeRef) (st : State)
-    (hc : CompareFacts sc (VisibleNode sc))
-    (hconv : u.converter = Converter.identity) (hig : ∀ v, u.ignore v = none)
-    (hnull : validateV sc false tr .null = .ok ())
-    (h : ReachableByUpdates u sc tr st) :
-    validateV sc false tr st.live = .ok () ∧
-      ∀ x ∈ st.managed, ∀ p, x.2.set.has p = true → Nodes.present sc tr st.live p = true := by
-  obtain ⟨hv, _, hown⟩ := updates_owned_of_compare_facts (VisibleNode sc) u sc tr st
-    (visibleNode_prefixClosed sc) hc hconv hig hnull h
-  exact ⟨hv, fun x hx p hp => present_of_visibleNode sc p tr st.live (hown x hx p hp)⟩
+/-! The instance of interest — every owned path designates a node of the live object under the
+independent resolver — is `SMD.C06.updates_owned_nodes` in SMD/Properties/C06Nodes.lean, proved there
+without any hypothesis about Compare (presence predicate `NodePresence`; the Compare facts come from
+the C11 exactness theorems). A first version stated here with `CompareFacts sc (VisibleNode sc)` was
+vacuous (`compareFacts_visibleNode_unsat`: `Nodes.childAt` also resolves positional index elements,
+which Compare never reports) and has been removed. -/
 
 /-- the hypotheses on `P` are consistent (trivially: everything is present) -/
 example (sc : Schema) : PrefixClosed (fun _ _ _ => True) ∧ CompareFacts sc (fun _ _ _ => True) :=
